@@ -1283,4 +1283,132 @@ theorem vlineAt_refines {rb : RB} {a : AState} (wf : WF rb) (R : Refines rb a) (
   obtain ⟨w2, q2⟩ := lineLoop_refines (fun line => (line, c)) (st <<< Gen.RBWidth.c_SOUTH_SHIFT ||| st <<< Gen.RBWidth.c_NORTH_SHIFT) (l2 - 1 - l1).toNat w1 q1 (l1 + 1)
   exact linecell_refines w2 q2 l2 c _
 
+/-! ## Rectangle operations -/
+
+theorem refines_ext {rb : RB} {a a' : AState} (R : Refines rb a) (h1 : a'.lines = a.lines) (h2 : a'.cols = a.cols)
+    (h3 : ∀ L C, a'.content L C = a.content L C) (h4 : ∀ L C, a'.masked L C = a.masked L C) (h5 : a'.vc = a.vc)
+    (h6 : a'.xlLine = a.xlLine) (h7 : a'.xlCol = a.xlCol) (h8 : ∀ L C, a'.clip L C = a.clip L C)
+    (h9 : a'.pen = a.pen) (h10 : a'.stack = a.stack) : Refines rb a' :=
+  ⟨h1.trans R.lines, h2.trans R.cols, fun L C => (h3 L C).trans (R.content L C), fun L C => (h4 L C).trans (R.masked L C),
+   h5.trans R.vc, h6.trans R.xlLine, h7.trans R.xlCol, fun L C => (h8 L C).trans (R.clip L C), h9.trans R.pen, h10 ▸ R.stack⟩
+
+/-- `n` lines from `from_`, columns `[left, left + cols)`. -/
+def inLines (from_ : Int) (n : Nat) (left cols : Int) (l c : Int) : Bool :=
+  decide (from_ ≤ l) && decide (l < from_ + n) && decide (left ≤ c) && decide (c < left + cols)
+
+theorem inLines_iff (from_ : Int) (n : Nat) (left cols l c : Int) :
+    inLines from_ n left cols l c = true ↔ (from_ ≤ l ∧ l < from_ + n ∧ left ≤ c ∧ c < left + cols) := by
+  unfold inLines; simp only [Bool.and_eq_true, decide_eq_true_eq]
+  constructor
+  · rintro ⟨⟨⟨a, b⟩, c⟩, d⟩; exact ⟨a, b, c, d⟩
+  · rintro ⟨a, b, c, d⟩; exact ⟨⟨⟨a, b⟩, c⟩, d⟩
+
+/-- A `for` loop over lines, each iteration painting one run with the same constant content. -/
+theorem forLines_refines (f : RB → Int → RB) (P : RB → Prop) (left cols : Int) (x : Content)
+    (hop : ∀ (rb : RB) (a : AState), WF rb → Refines rb a → P rb → ∀ line,
+      WF (f rb line) ∧ Refines (f rb line) (paint a (inRun line left cols) (fun _ _ _ => x)) ∧ P (f rb line))
+    (n : Nat) :
+    ∀ {rb : RB} {a : AState} (_ : WF rb) (_ : Refines rb a) (_ : P rb) (from_ : Int),
+      WF (forLines f rb from_ n) ∧ Refines (forLines f rb from_ n) (paint a (inLines from_ n left cols) (fun _ _ _ => x)) := by
+  induction n with
+  | zero =>
+    intro rb a wf R _ from_
+    refine ⟨wf, refines_paint_none R _ _ ?_⟩
+    intro l c
+    cases h : inLines from_ 0 left cols l c
+    · rfl
+    · have := (inLines_iff _ _ _ _ _ _).1 h; omega
+  | succ n ih =>
+    intro rb a wf R hP from_
+    unfold forLines
+    obtain ⟨w1, q1, p1⟩ := hop rb a wf R hP from_
+    obtain ⟨w2, q2⟩ := ih w1 q1 p1 (from_ + 1)
+    refine ⟨w2, refines_ext q2 rfl rfl ?_ (fun _ _ => rfl) rfl rfl rfl (fun _ _ => rfl) rfl rfl⟩
+    intro L C
+    show (if inLines from_ (n + 1) left cols (L - a.xlLine) (C - a.xlCol) && a.writable L C then x else a.content L C) =
+      (if inLines (from_ + 1) n left cols (L - a.xlLine) (C - a.xlCol) && a.writable L C then x
+       else (if inRun from_ left cols (L - a.xlLine) (C - a.xlCol) && a.writable L C then x else a.content L C))
+    by_cases hw : a.writable L C = true
+    · rw [hw]; simp only [Bool.and_true]
+      by_cases h1 : inLines (from_ + 1) n left cols (L - a.xlLine) (C - a.xlCol) = true
+      · rw [if_pos h1, if_pos]
+        have := (inLines_iff _ _ _ _ _ _).1 h1
+        rw [inLines_iff]; omega
+      · rw [if_neg h1]
+        by_cases h2 : inRun from_ left cols (L - a.xlLine) (C - a.xlCol) = true
+        · rw [if_pos h2, if_pos]
+          have := (inRun_iff _ _ _ _ _).1 h2
+          rw [inLines_iff]; omega
+        · rw [if_neg h2, if_neg]
+          intro h3
+          have h3' := (inLines_iff _ _ _ _ _ _).1 h3
+          rw [inLines_iff] at h1
+          rw [inRun_iff] at h2
+          omega
+    · have : a.writable L C = false := by cases h : a.writable L C <;> simp_all
+      rw [this]; simp
+
+theorem inLines_memb (r : Rect) (l c : Int) : inLines r.top (r.bottom - r.top).toNat r.left r.cols l c = r.memb l c := by
+  apply bool_ext
+  rw [inLines_iff, memb_iff]
+  unfold Rect.Mem Rect.bottom Rect.right
+  omega
+
+theorem paint_congr_cov {rb : RB} {a : AState} {cov cov' : Int → Int → Bool} {what : Int → Int → Content → Content}
+    (R : Refines rb (paint a cov what)) (h : ∀ l c, cov l c = cov' l c) : Refines rb (paint a cov' what) := by
+  refine refines_ext R rfl rfl ?_ (fun _ _ => rfl) rfl rfl rfl (fun _ _ => rfl) rfl rfl
+  intro L C
+  show (if cov' _ _ && _ then _ else _) = (if cov _ _ && _ then _ else _)
+  rw [h]
+
+theorem eraserect_refines {rb : RB} {a : AState} (wf : WF rb) (R : Refines rb a) (r : Rect) :
+    WF (RB.eraserect rb r) ∧ Refines (RB.eraserect rb r) (RBAbs.eraserect a r) := by
+  unfold RB.eraserect RBAbs.eraserect
+  rw [R.pen]
+  obtain ⟨w, q⟩ := forLines_refines (fun r' line => eraseRun r' line r.left r.cols) (fun r' => r'.pen = rb.pen) r.left r.cols
+    (.erase rb.pen)
+    (fun rb' a' wf' R' hp line => by
+      obtain ⟨w1, q1⟩ := eraseAt_refines wf' R' line r.left r.cols
+      unfold RB.eraseAt at w1 q1
+      unfold RBAbs.eraseAt at q1
+      rw [R'.pen, hp] at q1
+      exact ⟨w1, q1, (congrArg Aux.pen (eraseRun_aux rb' line r.left r.cols)).trans hp⟩)
+    (r.bottom - r.top).toNat wf R rfl r.top
+  exact ⟨w, paint_congr_cov q (inLines_memb r)⟩
+
+theorem skiprect_refines {rb : RB} {a : AState} (wf : WF rb) (R : Refines rb a) (r : Rect) :
+    WF (RB.skiprect rb r) ∧ Refines (RB.skiprect rb r) (RBAbs.skiprect a r) := by
+  unfold RB.skiprect RBAbs.skiprect
+  obtain ⟨w, q⟩ := forLines_refines (fun r' line => skipRun r' line r.left r.cols) (fun _ => True) r.left r.cols .skip
+    (fun rb' a' wf' R' _ line => by
+      obtain ⟨w1, q1⟩ := skipAt_refines wf' R' line r.left r.cols
+      exact ⟨w1, q1, trivial⟩)
+    (r.bottom - r.top).toNat wf R trivial r.top
+  exact ⟨w, paint_congr_cov q (inLines_memb r)⟩
+
+theorem forLines_congr (f g : RB → Int → RB) (P : RB → Prop) (hfg : ∀ rb l, P rb → f rb l = g rb l)
+    (hP : ∀ rb l, P rb → P (g rb l)) (n : Nat) :
+    ∀ (rb : RB) (from_ : Int), P rb → forLines f rb from_ n = forLines g rb from_ n := by
+  induction n with
+  | zero => intro rb from_ _; rfl
+  | succ n ih =>
+    intro rb from_ hp
+    unfold forLines
+    rw [hfg rb from_ hp]
+    exact ih _ _ (hP rb from_ hp)
+
+theorem clear_refines {rb : RB} {a : AState} (wf : WF rb) (R : Refines rb a) :
+    WF (RB.clear rb) ∧ Refines (RB.clear rb) (RBAbs.clear a) := by
+  have e : RB.clear rb = RB.eraserect rb ⟨0, 0, rb.lines, rb.cols⟩ := by
+    unfold RB.clear RB.eraserect
+    show forLines _ rb 0 rb.lines.toNat = forLines _ rb 0 ((0 + rb.lines) - 0).toNat
+    have : (0 + rb.lines - 0) = rb.lines := by omega
+    rw [this]
+    exact forLines_congr _ _ (fun r => r.cols = rb.cols) (fun r l h => by simp only [h])
+      (fun r l h => (congrArg Aux.cols (eraseRun_aux r l 0 rb.cols)).trans h) _ rb 0 rfl
+  rw [e]
+  unfold RBAbs.clear
+  rw [R.lines, R.cols]
+  exact eraserect_refines wf R _
+
 end Tickit.RB
